@@ -457,3 +457,122 @@ Proof. exact Proofs.CompletionPainted.painted_tiling_maps_complete_needs_no_hapl
 Print Assumptions C02_painted_needs_stranded_contigs.
 Print Assumptions C02_painted_needs_named_scaffolds.
 Print Assumptions C02_painted_needs_no_haplotype_names.
+
+(* ========================================================================
+   THE CAPSTONE FOR PAINTED MAPS (Proofs/EndToEndC02Painted*.v): the same ONE
+   statement about the final output of [remap] for tiling maps whose baits are
+   untagged or Painted (hypotheses of C02_painted_maps_complete): the whole
+   pipeline completes and every piece with a contig base in its core lands,
+   whole and oriented, as one block in a scaffold of an output assembly; two
+   such pieces of one Pretext scaffold lie in the same output scaffold in
+   Pretext order. *)
+From Tola Require Proofs.EndToEndC02Painted Proofs.EndToEndC02PaintedRank.
+Theorem C02_end_to_end_painted : forall g prefix n d input pretext,
+  0 < d -> d <= n ->
+  Forall Proofs.Completion.input_ok input -> NoDup (map fst input) ->
+  NoDup (map key_of (Model.RemapSpec.in_frags input)) ->
+  Forall (fun f => f_tags f = []) (Model.RemapSpec.in_frags input) ->
+  Forall (fun p => exists b t, snd p = RF b :: t) pretext ->
+  Forall (fun b => (f_tags b = [] \/ f_tags b = [s "Painted"]) /\ (f_strand b = 1 \/ f_strand b = -1)
+                   /\ In (f_name b) (map fst input)) (Proofs.CoreKept.baits_of pretext) ->
+  Forall (Proofs.Completion.scaffold_tiled n d (Proofs.CoreKept.baits_of pretext)) input ->
+  Forall (fun f => f_strand f = 1 \/ f_strand f = -1) (Model.RemapSpec.in_frags input) ->
+  Forall (fun p => Proofs.UniqueNames.painted_b p = true -> fst p <> []) pretext ->
+  Proofs.UniqueNames.no_haplotypes pretext ->
+  exists rs o,
+    remap_to_input repaired g prefix (n, d) input pretext = Ok rs
+    /\ remap repaired g prefix (n, d) input pretext = Ok o
+    /\ let err := error_length (n, d) in
+       forall bait src x,
+         In bait (Proofs.CoreKept.baits_of pretext) ->
+         In (f_name bait, src) (number_input input 0) ->
+         Proofs.CoreKept.in_core err bait x -> Proofs.CoreKept.contig_base src x ->
+         exists r a sc pre suf,
+           In r (b_store (rs_b rs)) /\ o_bait r = bait
+           /\ Model.OvrSpec.Inv src r /\ Proofs.CoreKept.core_kept err src r
+           /\ In a (out_asms o) /\ In sc (oa_scaffolds a)
+           /\ sc_rows sc = pre ++ to_scaffold_rows r ++ suf.
+Proof. exact Proofs.EndToEndC02Painted.c02_end_to_end_painted. Qed.
+Print Assumptions C02_end_to_end_painted.
+
+Theorem C02_end_to_end_painted_order : forall g prefix n d input pretext,
+  0 < d -> d <= n ->
+  Forall Proofs.Completion.input_ok input -> NoDup (map fst input) ->
+  NoDup (map key_of (Model.RemapSpec.in_frags input)) ->
+  Forall (fun f => f_tags f = []) (Model.RemapSpec.in_frags input) ->
+  Forall (fun p => exists b t, snd p = RF b :: t) pretext ->
+  Forall (fun b => (f_tags b = [] \/ f_tags b = [s "Painted"]) /\ (f_strand b = 1 \/ f_strand b = -1)
+                   /\ In (f_name b) (map fst input)) (Proofs.CoreKept.baits_of pretext) ->
+  Forall (Proofs.Completion.scaffold_tiled n d (Proofs.CoreKept.baits_of pretext)) input ->
+  Forall (fun f => f_strand f = 1 \/ f_strand f = -1) (Model.RemapSpec.in_frags input) ->
+  Forall (fun p => Proofs.UniqueNames.painted_b p = true -> fst p <> []) pretext ->
+  Proofs.UniqueNames.no_haplotypes pretext ->
+  exists rs o,
+    remap_to_input repaired g prefix (n, d) input pretext = Ok rs
+    /\ remap repaired g prefix (n, d) input pretext = Ok o
+    /\ let err := error_length (n, d) in
+       forall pname prows l1 b1 l2 b2 l3 src1 x1 src2 x2,
+         In (pname, prows) pretext ->
+         frags_of prows = l1 ++ b1 :: l2 ++ b2 :: l3 ->
+         In (f_name b1, src1) (number_input input 0) ->
+         Proofs.CoreKept.in_core err b1 x1 -> Proofs.CoreKept.contig_base src1 x1 ->
+         In (f_name b2, src2) (number_input input 0) ->
+         Proofs.CoreKept.in_core err b2 x2 -> Proofs.CoreKept.contig_base src2 x2 ->
+         exists r1 r2 a sc pre mid post,
+           In r1 (b_store (rs_b rs)) /\ o_bait r1 = b1
+           /\ Model.OvrSpec.Inv src1 r1 /\ Proofs.CoreKept.core_kept err src1 r1
+           /\ In r2 (b_store (rs_b rs)) /\ o_bait r2 = b2
+           /\ Model.OvrSpec.Inv src2 r2 /\ Proofs.CoreKept.core_kept err src2 r2
+           /\ In a (out_asms o) /\ In sc (oa_scaffolds a)
+           /\ sc_rows sc = pre ++ to_scaffold_rows r1 ++ mid ++ to_scaffold_rows r2 ++ post.
+Proof. exact Proofs.EndToEndC02Painted.c02_end_to_end_painted_order. Qed.
+Print Assumptions C02_end_to_end_painted_order.
+
+(* ... and WHERE a painted piece lands: in a rank-1 scaffold made from its own
+   Pretext scaffold, named <prefix><k>[_unloc_<m>] (with the hypotheses of
+   C10_chromosome_numbers).  "A painted Pretext scaffold is not named like an
+   input scaffold" was FORCED BY THE PROOF (an unpainted Pretext scaffold showing
+   input scaffold Xa whole keeps the name Xa at rank 3; a later painted Pretext
+   scaffold that is itself called Xa fuses under the same key and inherits rank 3) *)
+Theorem C02_end_to_end_painted_named : forall g prefix n d input pretext,
+  0 < d -> d <= n ->
+  Forall Proofs.Completion.input_ok input -> NoDup (map fst input) ->
+  NoDup (map key_of (Model.RemapSpec.in_frags input)) ->
+  Forall (fun f => f_tags f = []) (Model.RemapSpec.in_frags input) ->
+  Forall (fun p => exists b t, snd p = RF b :: t) pretext ->
+  Forall (fun b => (f_tags b = [] \/ f_tags b = [s "Painted"]) /\ (f_strand b = 1 \/ f_strand b = -1)
+                   /\ In (f_name b) (map fst input)) (Proofs.CoreKept.baits_of pretext) ->
+  Forall (Proofs.Completion.scaffold_tiled n d (Proofs.CoreKept.baits_of pretext)) input ->
+  Forall (fun f => f_strand f = 1 \/ f_strand f = -1) (Model.RemapSpec.in_frags input) ->
+  Forall (fun p => Proofs.UniqueNames.painted_b p = true -> fst p <> []) pretext ->
+  Proofs.UniqueNames.no_haplotypes pretext ->
+  Forall (fun p => Proofs.UniqueNames.painted_b p = true -> ~ In (fst p) (map fst input)) pretext ->
+  Proofs.UniqueNames.input_namespace_ok prefix input pretext ->
+  (length (filter Proofs.UniqueNames.painted_b pretext) <= 191)%nat ->
+  Proofs.UniqueNames.no_haplotypes input ->
+  NoDup (map fst pretext) ->
+  exists rs o,
+    remap_to_input repaired g prefix (n, d) input pretext = Ok rs
+    /\ remap repaired g prefix (n, d) input pretext = Ok o
+    /\ let err := error_length (n, d) in
+       forall bait src x,
+         In bait (Proofs.CoreKept.baits_of pretext) ->
+         In (f_name bait, src) (number_input input 0) ->
+         Proofs.CoreKept.in_core err bait x -> Proofs.CoreKept.contig_base src x ->
+         f_tags bait = [s "Painted"] ->
+         exists r a sc pre suf,
+           In r (b_store (rs_b rs)) /\ o_bait r = bait
+           /\ Model.OvrSpec.Inv src r /\ Proofs.CoreKept.core_kept err src r
+           /\ In a (out_asms o) /\ In sc (oa_scaffolds a)
+           /\ sc_rows sc = pre ++ to_scaffold_rows r ++ suf
+           /\ sc_rank sc = 1
+           /\ (exists pname prows, In (pname, prows) pretext /\ In bait (frags_of prows)
+                                   /\ sc_orig sc = Some pname)
+           /\ exists k sfx, sc_name sc = prefix ++ Py.Dec.str_of_Z (Z.of_nat k + 1) ++ sfx
+                            /\ Proofs.UniqueNames.unloc_sfx sfx = true.
+Proof. exact Proofs.EndToEndC02PaintedRank.c02_end_to_end_painted_named. Qed.
+Print Assumptions C02_end_to_end_painted_named.
+
+Theorem C02_painted_rank_needs_fresh_names : ~ Proofs.EndToEndC02PaintedRank.painted_rank_statement false.
+Proof. exact Proofs.EndToEndC02PaintedRank.painted_rank_needs_fresh_names. Qed.
+Print Assumptions C02_painted_rank_needs_fresh_names.
